@@ -136,6 +136,7 @@ def register(reg):
     register_order(reg)
     register_project_sql(reg)
     register_extend_sql(reg)
+    register_select_rows_sql(reg)
     register_order_steps(reg)
     register_small_steps(reg)
 
@@ -406,6 +407,65 @@ def register_extend_sql(reg):
 
 
 KEYS_C27_SQL = ["SQLModel.extend_to_near_sql:window-clause"]
+
+
+# ====================================================================== C08/C01: SQLModel.select_rows_to_near_sql (selected terms and WHERE text)
+def register_select_rows_sql(reg):
+    import z3
+    from pyvc.api import Contract, T, VList, VNone, VOpt, VPy, VScalar, VSet, VStr, VTuple, VDict, fresh_name
+    from contracts.vr_common import COLS, NODE
+    SM = T.obj("SQLModel")
+    NEAR = T.opaque("NearSQL")
+    if "SQLFormatOptions" not in reg.classes:
+        reg.add_class("SQLFormatOptions", {"initial_commas": T.bool, "sql_indent": T.atom}, file="data_algebra/sql_model.py")
+    reg.classes["SQLModel"].fields.setdefault("default_SQL_format_options", T.obj("SQLFormatOptions"))
+    if "expr" not in reg.classes["SelectRowsNode"].fields:
+        reg.classes["SelectRowsNode"].fields["expr"] = T.opaque("Expr")
+
+    def cu_apply(eng, st, argmap, node):
+        r = eng.alloc(st, "OrderedSet")
+        return [(st, VTuple([r], is_list=True))]
+
+    reg.add(Contract(key="SelectRowsNode.columns_used_from_sources", cls="SelectRowsNode", params={"self": T.obj("SelectRowsNode")}, assumed=True, apply=cu_apply,
+                     note="columns_used_from_sources: proved separately (C10); here only its shape (one entry) matters"))
+
+    def e2s(S):
+        return S.func("expr_to_sql", S.sort("Expr"), S.Atom)
+
+    def ens(c):
+        S, eng, st = c.S, c.eng, c.st
+        if c.raised:
+            return []
+        node = c.select_rows_node
+        suffix = st.ghost.get("unary_step_suffix")
+        terms = st.ghost.get("unary_step_terms")
+        if suffix is None or not isinstance(terms, VDict):
+            return [("builds-a-unary-step-with-a-term-dictionary", z3.BoolVal(False))]
+        sl = eng.list_of(suffix, st)
+        opts = c.sql_format_options
+        if isinstance(opts, VNone):
+            opts = c.field(c.self, "default_SQL_format_options")
+        indent = c.field(VScalar(opts.z, T.obj("SQLFormatOptions")), "sql_indent").z
+        cat = S.func("str_concat", S.Atom, S.Atom, S.Atom)
+        out = [("the-filter-is-the-node's-expression: suffix == ['WHERE', indent + sql(expr)]",
+                z3.And(sl.n == 2, sl.arr[0] == S.str_const("WHERE"), sl.arr[1] == cat(indent, e2s(S)(c.field(node, "expr").z))))]
+        k = z3.Const("sr_k", S.Atom)
+        if isinstance(c.using, VNone):
+            want = eng.list_mem(c.field(node, "column_names"), st)
+        else:
+            want = eng.set_of(c.using, st, None).arr
+        out.append(("selected-terms-are-exactly-the-requested-columns (all of the step's columns by default), each passed through unchanged",
+                    z3.ForAll([k], z3.And(terms.dom[k] == want[k], z3.Implies(terms.dom[k], terms.val[k] == S.NONE)))))
+        return out
+
+    reg.add(Contract(key="SQLModel.select_rows_to_near_sql", file="data_algebra/sql_model.py", qualname="SQLModel.select_rows_to_near_sql", cls="SQLModel",
+                     params={"self": SM, "select_rows_node": T.obj("SelectRowsNode"), "using": T.opt(T.obj("OrderedSet")), "temp_id_source": Ty_py_none(), "sql_format_options": T.opt(T.obj("SQLFormatOptions"))},
+                     returns=NEAR, ensures=ens, modifies=(("OrderedSet", "impl"),),
+                     requires=lambda c: [("is-a-select_rows-node", c.field(c.select_rows_node, "node_name").z == c.S.str_const("SelectRowsNode")), ("one-source", c.field(c.select_rows_node, "sources").n == 1),
+                                         ("node-allocated", c.eng.allocated(c.st, c.select_rows_node)), ("source-allocated", c.eng.allocated(c.st, VScalar(c.field(c.select_rows_node, "sources").arr[0], NODE)))]))
+
+
+KEYS_C08_SQL = ["SQLModel.select_rows_to_near_sql"]
 
 
 # ====================================================================== C18: the executors' order_rows steps (arguments handed to sort / head)
